@@ -283,20 +283,31 @@ func main() {
 		return
 	}
 	rep = report.New("C19", tier, "model_checking")
-	rep.Rule = "E2: breadth-first search over all AddLink histories (each of the 10 candidate links between 5 irregularly placed nodes at most once; straight / detour geometry, stored direction and speed fixed per link by a table; tables with speeds {1,4} and uniform 0.1 (thorough: three {1,4} tables, uniform 0.1, {0.25,0.5}, uniform 25)) to depth 5 (7), deduplicated by (link set, node-id assignment); successor = replay on a fresh Network; in every distinct state, for both MinimizeOptions, all 49 ordered pairs of query points from {5 node positions, 2 off-network points} (pairs with a non-unique nearest node skipped); E3: in states with <= 3 links every query is additionally explored over all map-iteration orders of the instrumented route package with at most 1 deviation. every state of >= 2 links is also reached on one object with all queries asked before the last AddLink (queries as operations); an 8x8 street grid (64 nodes, 112 links: the node index has several leaves) with all 4096 ordered pairs of 64 off-node query points (some links densified to 1500 vertices), the same as a 9x7 grid in longitude/latitude-like coordinates (63 nodes, 3969 query pairs) and as 13x13 scattered nodes (169 nodes, 361 query points inside and up to three steps outside the network, 6 partners each), and a straight road of 80 collinear nodes with 144 query pairs; Oracle: Floyd-Warshall minimum cost, chain validity, totals, emptiness. Non-trivial = states in which some node pair has at least two distinct routes."
+	rep.Rule = "E2: breadth-first search over all AddLink histories (each of the 10 candidate links between 5 irregularly placed nodes at most once; straight / detour geometry, stored direction and speed fixed per link by a table; tables with speeds {1,4} and uniform 0.1 (thorough: three {1,4} tables, uniform 0.1, {0.25,0.5}, uniform 25), and one table (thorough two) over 5 nodes in projected-metre coordinates (500000, 4900000) of which two are 0.36 apart) to depth 5 (7), deduplicated by (link set, node-id assignment); successor = replay on a fresh Network; in every distinct state, for both MinimizeOptions, all 49 ordered pairs of query points from {5 node positions, 2 off-network points} (pairs with a non-unique nearest node skipped); E3: in states with <= 3 links every query is additionally explored over all map-iteration orders of the instrumented route package with at most 1 deviation. every state of >= 2 links is also reached on one object with all queries asked before the last AddLink (queries as operations); an 8x8 street grid (64 nodes, 112 links: the node index has several leaves) with all 4096 ordered pairs of 64 off-node query points (some links densified to 1500 vertices), the same as a 9x7 grid in longitude/latitude-like coordinates (63 nodes, 3969 query pairs) and as 13x13 scattered nodes (169 nodes, 361 query points inside and up to three steps outside the network, 6 partners each), and a straight road of 80 collinear nodes with 144 query pairs; Oracle: Floyd-Warshall minimum cost, chain validity, totals, emptiness. Non-trivial = states in which some node pair has at least two distinct routes."
 	type tabSpec struct {
 		variant int
 		speeds  [2]float64
+		pos     int // node positions: 0 the small irregular ones, 1 projected-metre coordinates with two nodes 0.36 apart
 	}
+	posSets := [][]geom.Point{
+		nodePos,
+		{{X: 500000, Y: 4900000}, {X: 501000, Y: 4900000}, {X: 501000.36, Y: 4900000}, {X: 502000, Y: 4900010}, {X: 501000.2, Y: 4900900}},
+	}
+	qSets := [][]geom.Point{
+		queries,
+		append(append([]geom.Point{}, posSets[1]...), geom.Point{X: 500990, Y: 4899990}, geom.Point{X: 501500, Y: 4900400}),
+	}
+	defer func(p, q []geom.Point) { nodePos, queries = p, q }(nodePos, queries)
 	// (uniform and sub-unit speeds: the time heuristic and the link weight must
 	// stay in the same unit whatever the speeds are)
-	depth, tables := 5, []tabSpec{{0, [2]float64{1, 4}}, {1, [2]float64{0.1, 0.1}}}
+	depth, tables := 5, []tabSpec{{0, [2]float64{1, 4}, 0}, {1, [2]float64{0.1, 0.1}, 0}, {2, [2]float64{1, 4}, 1}}
 	if tier == "thorough" {
-		depth, tables = 7, []tabSpec{{0, [2]float64{1, 4}}, {1, [2]float64{1, 4}}, {2, [2]float64{1, 4}}, {1, [2]float64{0.1, 0.1}}, {0, [2]float64{0.25, 0.5}}, {2, [2]float64{25, 25}}}
+		depth, tables = 7, []tabSpec{{0, [2]float64{1, 4}, 0}, {1, [2]float64{1, 4}, 0}, {2, [2]float64{1, 4}, 0}, {1, [2]float64{0.1, 0.1}, 0}, {0, [2]float64{0.25, 0.5}, 0}, {2, [2]float64{25, 25}, 0}, {0, [2]float64{1, 4}, 1}, {2, [2]float64{1, 4}, 1}}
 	}
 	var states, trans, queriesRun, envExecs, nontrivial, skipped int64
 	var mu sync.Mutex
 	for _, ts := range tables {
+		nodePos, queries = posSets[ts.pos], qSets[ts.pos]
 		tab := linkTable(ts.variant, ts.speeds)
 		seen := map[string]bool{}
 		frontier := [][]int{{}}
